@@ -86,6 +86,10 @@ let handler r =
       out_res (let* axis = rd_vec3 r in let* v = rd_vec3 r in
                let* m = rotation_matrix fops alpha three axis in
                let* m = mat_history r m in Ok (put_fl (mvec fops m v)))
+  | "rotaxis" -> let alpha = num r in
+      out_res (let* axis = rd_vec3 r in
+               let* m = rotation_matrix fops alpha three axis in
+               let* m = mat_history r m in Ok (put_fl (mvec fops m axis)))
   | "rotback" -> let alpha = num r in
       out_res (let* axis = rd_vec3 r in let* v = rd_vec3 r in
                let* m = rotation_matrix fops alpha three axis in
